@@ -285,7 +285,7 @@ def amountGap (p : Posting) (al : AlignmentInfo) (indent : Bytes) (align : Bool)
   else minSpaces
 
 def costText (c : Cost) (formats : Option Formats) (content : Bytes) : Bytes :=
-  (if c.isTotal then bs " @@ " else bs " @ ") ++ writeAmountWithSign c.amount formats content
+  (if c.isTotal then [32, 64, 64, 32] else [32, 64, 32])   -- " @@ " / " @ " ++ writeAmountWithSign c.amount formats content
 
 /-- Head, gap, amount and cost: everything written before the balance assertion. -/
 def postingUpToCost (p : Posting) (al : AlignmentInfo) (formats : Option Formats) (indent : Bytes)
@@ -307,7 +307,7 @@ def trimRightCR : Bytes → Bytes
     let t := trimRightCR bs
     if t.isEmpty && isBlankOrCR b then [] else b :: t
 
-def commentText (c : Bytes) : Bytes := if !c.isEmpty then bs "  ;" ++ trimRightCR c else []
+def commentText (c : Bytes) : Bytes := if !c.isEmpty then [32, 32, 59] ++ trimRightCR c else []   -- "  ;"
 
 /-- `formatPostingWithOpts`. -/
 def formatPostingWithOpts (p : Posting) (al : AlignmentInfo) (formats : Option Formats)
@@ -316,7 +316,7 @@ def formatPostingWithOpts (p : Posting) (al : AlignmentInfo) (formats : Option F
   let withBa := match p.assertion with
     | some ba =>
       let gap := if align && al.baCol > 0 then max (al.baCol - runeCount pre) minSpaces else minSpaces
-      pre ++ spaces gap ++ (if ba.isStrict then bs "== " else bs "= ") ++ writeAmountWithSign ba.amount formats content
+      pre ++ spaces gap ++ (if ba.isStrict then [61, 61, 32] else [61, 32]) ++ writeAmountWithSign ba.amount formats content
     | none => pre
   withBa ++ commentText p.comment
 
